@@ -195,12 +195,15 @@ func GenScenario(t *rapid.T, o GenOpts) Scenario {
 		st = append(st, len(sc.Pool)-1)
 		sc.Stack = append(st, sc.Stack[at:]...)
 	}
-	hasHedge := false
-	for _, p := range sc.Stack {
-		if sc.Pool[p].Kind == "hedge" {
-			hasHedge = true
+	hasKind := func(kind string) bool {
+		for _, p := range sc.Stack {
+			if sc.Pool[p].Kind == kind {
+				return true
+			}
 		}
+		return false
 	}
+	hasHedge := hasKind("hedge")
 	if hasHedge {
 		// A hedge abandons its attempts when the execution is cancelled: what is inside the hedge then finishes
 		// asynchronously, which a sequential model cannot follow. Cancellation x hedge is covered by C08/C09; here a stack
@@ -291,6 +294,11 @@ func GenScenario(t *rapid.T, o GenOpts) Scenario {
 			}
 			nOut := rapid.IntRange(0, o.MaxScript).Draw(t, "scriptN")
 			cancelMode := !usedFire && !hasHedge && o.CancelOneIn > 0 && rapid.IntRange(1, o.CancelOneIn).Draw(t, "cancelMode") == 1
+			// a context that is already done: a bulkhead chooses at random between the permit and the context then, and so
+			// does a rate limiter between its zero wait and the cancellation, so only stacks without either
+			if cancelMode && !hasKind("bulkhead") && !hasKind("limiter") {
+				st.PreCancel = rapid.IntRange(0, 2).Draw(t, "preCancel") == 0
+			}
 			for k := 0; k < nOut; k++ {
 				oc := Outcome{V: rapid.IntRange(0, 3).Draw(t, "v"), E: genErrName(t, o.RichErrors, "e")}
 				if cancelMode && rapid.IntRange(0, 2).Draw(t, "c") == 0 {
